@@ -124,6 +124,21 @@ class BridgeProp(Prop):
         return [{"module": "MC_Datagram"}]
 
     def execute(self, scn):
+        if scn.get("pyflags"):
+            # the same scenario in a fresh interpreter started with these flags (-b / -bb: str() of a bytes object warns / raises,
+            # which is what an f-string does to a datagram it logs)
+            import json
+            import subprocess
+            import sys
+            from ..core import ROOT
+            inner = {k: v for k, v in scn.items() if k != "pyflags"}
+            p = subprocess.run([sys.executable] + list(scn["pyflags"]) + ["-c", "import json, sys; from harness.udpdrive import run_scenario; "
+                               "json.dump(run_scenario(json.load(sys.stdin)), sys.stdout)"],
+                               input=json.dumps(inner), capture_output=True, text=True, timeout=600, cwd=str(ROOT))
+            if p.returncode != 0:
+                from ..tlc import Machinery
+                raise Machinery("bridge scenario failed in an interpreter started with " + " ".join(scn["pyflags"]) + ": " + p.stderr[-400:])
+            return json.loads(p.stdout)
         from ..udpdrive import run_scenario
         return run_scenario(scn)
 
@@ -280,6 +295,9 @@ class C06(BridgeProp):
         out = []
         for k in range(0, len(dg), 150):
             out.append(wrap(PORTS, dg[k:k + 150]))
+        # "quietly" also in an interpreter that warns about (-b), or refuses (-bb), str() of a bytes object
+        for n, sc in enumerate(list(out[: ctx.pick(2, 6)])):
+            out.append(dict(sc, pyflags=["-b"] if n % 2 == 0 else ["-bb"]))
         return out
 
     def owns(self, clause):
